@@ -3,6 +3,7 @@
 package alt
 
 import (
+	"encoding/json"
 	"fmt"
 	"reflect"
 	"time"
@@ -68,6 +69,8 @@ func Generify(v any, options ...*Options) (n gen.Node) {
 			n = tv
 		case time.Time:
 			n = gen.Time(tv)
+		case json.Number:
+			n = gen.Big(tv)
 		case gen.Time:
 			n = tv
 		case []any:
@@ -151,6 +154,8 @@ func GenAlter(v any, options ...*Options) (n gen.Node) {
 			n = tv
 		case time.Time:
 			n = gen.Time(tv)
+		case json.Number:
+			n = gen.Big(tv)
 		case []any:
 			a := *(*gen.Array)(unsafe.Pointer(&tv))
 			for i, m := range tv {
